@@ -535,7 +535,6 @@ void Model::b_internal_start(int mi, const MEv& e, int trigger) {
         if (S(s).kind == SK_SUB) b_do_entry(S(s).sub, nullptr, e, trigger, mi);
         else enter_simple(mi, s, e, trigger);
     }
-    b_completion(mi, SRC_DEFAULT);   // C10: initial states' completion transitions
 }
 void Model::b_do_entry(int mi, const DRow* r, const MEv& e, int trigger, int fsm_mi) {
     MInst& I = inst_[mi];
@@ -553,6 +552,8 @@ void Model::b_do_entry(int mi, const DRow* r, const MEv& e, int trigger, int fsm
         throw;
     }
     I.busy = false;
+    // C10: completion transitions of the states just entered fire before anything that was queued meanwhile
+    b_completion(mi, SRC_DEFERRED);
     if (M(mi).has_deferred) b_handle_deferred(mi, true);
     b_process_msg_queue(mi);
 }
@@ -650,8 +651,20 @@ size_t Model::m_do_process_pool(int mi, size_t max_events) {
             if (it.seq == I.cur_seq_cnt || m_is_event_deferred(mi, it.e.ev)) dispatched = false;  // C05 retention
             else {
                 I.pool[idx].marked = true;
+                size_t before = I.pool.size();
                 result = m_process_internal(mi, it.e, INFO_POOL);
                 dispatched = true;
+                if ((result & R_DEFERRED) && !dl_.q_mp_action_defer_requeue && idx < I.pool.size()) {
+                    // C05: an occurrence that is deferred again keeps its place among the pending ones
+                    // (arrival order); the implementation appends a fresh copy instead (known finding KF-2)
+                    bool requeued = false;
+                    for (size_t k = I.pool.size(); k-- > before && k < I.pool.size(); )
+                        if (I.pool[k].kind == 0 && I.pool[k].e.occ == it.e.occ && !I.pool[k].marked) {
+                            I.pool.erase(I.pool.begin() + k);
+                            requeued = true;
+                        }
+                    if (requeued) { I.pool[idx].marked = false; I.pool[idx].seq = I.cur_seq_cnt; }
+                }
             }
         }
         if (!dispatched) { ++idx; continue; }
